@@ -74,17 +74,34 @@ def parseAttempt (s : String) : Option Attempt :=
     else none
   | _ => none
 
-def parseReq (s : String) : Option (ReqSpec × Char × Char) :=
-  match s.splitOn ":" with
-  | [m, b, sc] =>
+def parseFinV (c : Char) : Option FinV :=
+  if c == 'g' then some .goon else if c == 'f' then some .finish
+  else if c == 'r' || c == 'p' || c == 'c' then some .other
+  else if c == '!' then some .panic else none
+
+def parsePre (s : String) : Option (Option Nat) :=
+  if s == "-" then some none else if s == "f" then some (some 1) else if s == "c" then some (some 2)
+  else if s == "r" then some (some 0) else none
+
+def parseReq3 (m b sc : String) : Option (ReqSpec × Char × Char) :=
     match m.toList, b.toList with
     | [mc], [bc] =>
       if !(mc == 'G' || mc == 'P' || mc == 'H' || mc == 'g') then none
       else if !(bc == 'n' || bc == 'e' || bc == 'r' || bc == 's' || bc == 'S') then none
       else do
         let script ← if sc == "-" then some [] else (sc.splitOn ".").mapM parseAttempt
-        some (⟨mc == 'G', bc == 'n' || bc == 'e' || bc == 's', script⟩, mc, bc)
+        some (⟨mc == 'G', bc == 'n' || bc == 'e' || bc == 's', script, [], none⟩, mc, bc)
     | _, _ => none
+
+def parseReq (s : String) : Option (ReqSpec × Char × Char) :=
+  match s.splitOn ":" with
+  | [m, b, sc] => parseReq3 m b sc
+  | [m, b, sc, fin, pre] => do
+    let (rq, mc, bc) ← parseReq3 m b sc
+    let fv ← if fin == "-" then some [] else fin.toList.mapM parseFinV
+    let pv ← parsePre pre
+    if fv.length > 4 then none else
+    some ({ rq with finish := fv, pre := pv }, mc, bc)
   | _ => none
 
 def parseStep (n : Nat) (s : String) : Option Step :=
@@ -142,7 +159,9 @@ def renderInv (cfg : Cfg) (k : Nat) (r : LR) : String :=
 
 def renderOut (cfg : Cfg) : StepOut → String
   | .inv k r => renderInv cfg k r
-  | .fin k conn => "f" ++ toString k ++ ":cn=" ++ renderConn cfg conn
+  | .fin k act ran panicked conn =>
+    "f" ++ toString k ++ ":" ++ (if panicked then "cbpanic" else "act=" ++ toString act) ++
+    ";n=" ++ toString ran ++ ";cn=" ++ renderConn cfg conn
   | .bad => "bad"
 
 /-! ### resolving the `randomSelectExclude` oracle against the observed line -/
